@@ -136,6 +136,33 @@ MathVariadicArgs(fn) == {<<>>} \cup {<<v>> : v \in MathSmall \cup MathOdd} \cup 
                         \cup {<<v, w, z>> : v \in {Nm(1), VNumW(WNaN), VNumW(WNegZero)}, w \in {Nm(2), VNumW(WPosZero), VNumW(WPosInf)}, z \in {Nm(0), VNumW(WNaN), VNumW(WNegInf)}}
 MathArgs(fn) == IF fn \in MathUnary THEN MathUnaryArgs(fn) ELSE IF fn \in MathBinary THEN MathBinaryArgs(fn) ELSE MathVariadicArgs(fn)
 
+\* ---------------- rounding thresholds of the Math functions that round to a coarser format (family Rnd) ----------
+\* A function that rounds to a format has one threshold between every two adjacent members of the format; the grid is
+\* derived from the format, not hand-picked.  binary32: the member q * 2^e (q < 2^24; e = -149 for subnormals and the
+\* smallest normals, else 2^23 <= q), the midpoint (2q + 1) * 2^(e-1) to its successor, and the doubles adjacent to
+\* both - so every "just below / at / just above the tie" is present, at even and odd q (ties to even go both ways),
+\* at the underflow tie 2^-150, among subnormals, and at the overflow tie above FLT_MAX = (2^24 - 1) * 2^104.
+RndAround(d) == {d, DPrevMag(d), DNextMag(d)}
+RndBothSigns(ds) == ds \cup {DNeg(d) : d \in ds}
+RndF32Member(q, e) == IF q = 0 THEN DZero(0) ELSE DRoundDy(0, BnOfInt(q), e, FALSE)
+RndF32Mid(q, e) == DRoundDy(0, BnOfInt(2 * q + 1), e - 1, FALSE)
+RndF32SubQs == {0, 1, 2, 3, 8388607}
+RndF32NormQs == IF Quick THEN {8388608, 8388609, 16777214, 16777215} ELSE {8388608, 8388609, 8388610, 12582911, 12582912, 16777213, 16777214, 16777215}
+RndF32Exps == IF Quick THEN {-149, -23, 0, 104} ELSE Range(-149, 104, 11) \cup {-148, -24, -23, -1, 0, 1, 29, 103, 104}
+RndF32Points == {<<q, -149>> : q \in RndF32SubQs} \cup {<<q, e>> : q \in RndF32NormQs, e \in RndF32Exps}
+RndF32Vals == RndBothSigns(UNION {RndAround(RndF32Member(pt[1], pt[2])) \cup RndAround(RndF32Mid(pt[1], pt[2])) : pt \in RndF32Points})
+\* integers: n = 2^k + j, n + 1/2, and the doubles adjacent to both (floor / ceil / round / trunc change at n or at
+\* n + 1/2; ToUint32 of clz32 / imul wraps at 2^32; beyond 2^52 every double is an integer)
+RndIntExps == IF Quick THEN {0, 1, 23, 31, 32, 52, 53} ELSE {0, 1, 2, 3, 10, 23, 24, 30, 31, 32, 33, 51, 52, 53, 54, 63, 64}
+RndHalf == DPow2(-1)
+RndIntSeeds == {DAdd(DPow2(k), DOfSmallInt(j)) : k \in RndIntExps, j \in {-1, 0, 1}}
+RndIntVals == RndBothSigns(UNION {RndAround(n) \cup RndAround(DAdd(n, RndHalf)) : n \in RndIntSeeds})
+RndIntFns == {"floor", "ceil", "round", "trunc", "clz32"}
+RndArgs(fn) == CASE fn = "fround" -> {<<NumV(v)>> : v \in RndF32Vals}
+                 [] fn \in RndIntFns -> {<<NumV(v)>> : v \in RndIntVals}
+                 [] fn = "imul" -> {<<NumV(v), Nm(3)>> : v \in RndIntVals} \cup {<<Nm(3), NumV(v)>> : v \in RndIntVals}
+                 [] OTHER -> {}
+
 \* ---------------- Enum ----------------------------------------------------------------------------------
 VARIABLES ph, cur, rec_i
 vars == <<ph, cur, rec_i>>
@@ -160,7 +187,7 @@ EnumEmit ==
          [] cur.g = "parse" -> PrintT(ToJson([g |-> "parse", parsers |-> Parsers,
                                   strs |-> {w \o sg \o U(BodyTexts[cur.v]) \o sf : w \in WsPre, sg \in Signs, sf \in Suffixes}]))
          [] cur.g = "radix" -> PrintT(ToJson([g |-> "radix", str |-> U(RadixTexts[cur.v]), radixes |-> RadixVals]))
-         [] cur.g = "math" -> PrintT(ToJson([g |-> "math", fn |-> cur.v, args |-> MathArgs(cur.v)]))
+         [] cur.g = "math" -> PrintT(ToJson([g |-> "math", fn |-> cur.v, args |-> MathArgs(cur.v), rnd |-> RndArgs(cur.v)]))
          [] cur.g = "long" -> PrintT(ToJson([g |-> "long", calls |-> LongCalls(LongSpecs[cur.v])]))
 
 \* ---------------- expected behaviour of one call -----------------------------------------------------
@@ -260,13 +287,41 @@ LongGridLaw ==
      /\ \E x \in all : len(x) > 4300
      /\ \E x \in all : len(x) <= 1000                                                  \* control below the mark
      /\ \A lg_j \in 1..Len(LongSpecs) : LongSpecs[lg_j].zs = {} \/ \E x \in LongShapes(LongSpecs[lg_j]) : IsLong(x) /\ len(x) > 1000
+\* the threshold grid of either tier contains every class of rounding situation (a class dropped from a tier fails
+\* the specification run): classes are stated through the reference rounding, not through particular values
+RndGridLaw ==
+  LET r(x) == DRoundF32(x)
+      fin == {x \in RndF32Vals : x.c = "fin"}
+      fmax == RndF32Member(16777215, 104)
+      inexact(x) == r(x) # x
+      sub32(y) == y.c = "fin" /\ y.e + BnBitLen(y.m) <= -126                                 \* a subnormal binary32 value
+  IN /\ \A sg \in {0, 1} :
+          /\ \E x \in fin : x.s = sg /\ DMagCmp(x, fmax) > 0 /\ r(x).c = "fin"              \* beyond FLT_MAX, below the tie: FLT_MAX
+          /\ \E x \in fin : x.s = sg /\ r(x).c = "inf" /\ r(DPrevMag(x)).c = "fin"           \* the overflow tie itself
+          /\ \E x \in fin : x.s = sg /\ r(x).c = "inf" /\ r(DPrevMag(x)).c = "inf"           \* beyond the tie
+          /\ \E x \in fin : x.s = sg /\ r(x).c = "zero" /\ r(DNextMag(x)).c = "fin"          \* the underflow tie 2^-150: zero
+          /\ \E x \in fin : x.s = sg /\ r(x).c = "fin" /\ r(DPrevMag(x)).c = "zero"          \* just above it: the least subnormal
+          /\ \E x \in fin : x.s = sg /\ inexact(x) /\ sub32(r(x))                            \* inexact, subnormal result
+          \* a tie resolved towards zero and one resolved away from it (even significand), normal range
+          /\ \E x \in fin : x.s = sg /\ r(x).c = "fin" /\ ~sub32(r(x)) /\ DMagCmp(r(x), x) < 0 /\ r(DNextMag(x)) # r(x) /\ r(DPrevMag(x)) = r(x)
+          /\ \E x \in fin : x.s = sg /\ r(x).c = "fin" /\ ~sub32(r(x)) /\ DMagCmp(r(x), x) > 0 /\ r(DPrevMag(x)) # r(x) /\ r(DNextMag(x)) = r(x)
+          /\ \E x \in fin : x.s = sg /\ ~inexact(x) /\ inexact(DNextMag(x)) /\ r(DNextMag(x)) = x  \* a member and its neighbour
+          \* integers: the exact half (round changes there, not before), a non-integer beyond 2^51, ToUint32 wrap
+          /\ \E x \in RndIntVals : x.c = "fin" /\ x.s = sg /\ ~DIsInteger(x) /\ DRoundHalfUp(DPrevMag(x)) # DRoundHalfUp(DNextMag(x))
+                                     /\ DFloor(DPrevMag(x)) = DFloor(DNextMag(x))
+          /\ \E x \in RndIntVals : x.c = "fin" /\ x.s = sg /\ DIsInteger(x) /\ DFloor(DPrevMag(x)) # DFloor(x) /\ DCeil(DNextMag(x)) # DCeil(x)
+          /\ \E x \in RndIntVals : x.c = "fin" /\ x.s = sg /\ ~DIsInteger(x) /\ DMagCmp(x, DPow2(51)) > 0
+          /\ \E x \in RndIntVals : x.c = "fin" /\ x.s = sg /\ DMagCmp(x, DPow2(32)) >= 0 /\ DClz32(x) < 32
+          /\ \E x \in RndIntVals : x.c = "fin" /\ x.s = sg /\ ~DIsInteger(x) /\ DMagCmp(x, DPow2(32)) > 0 /\ DMagCmp(x, DPow2(33)) < 0
+     /\ \A x \in RndF32Vals \cup RndIntVals : DCanon(x)
 LawsHold ==
   IF ph # "case" THEN TRUE
   ELSE CASE cur.g = "fmt" -> FmtLaws(cur.v) /\ LitLaws(cur.v)
          [] cur.g = "long" -> LongLaws(LongSpecs[cur.v]) /\ LongGridLaw
          [] cur.g = "parse" -> \A w \in WsPre, sg \in Signs, sf \in Suffixes : ParseLaws(w \o sg \o U(BodyTexts[cur.v]) \o sf)
          [] cur.g = "radix" -> \A rv \in RadixVals : ParseInt(<<VStr(U(RadixTexts[cur.v])), rv>>).o = "value"
-         [] cur.g = "math" -> \A a \in MathArgs(cur.v) : MathLaws(cur.v, a)
+         [] cur.g = "math" -> /\ \A a \in MathArgs(cur.v) \cup RndArgs(cur.v) : MathLaws(cur.v, a)
+                              /\ (cur.v = "fround" => RndGridLaw)
 
 \* ---------------- Judge ------------------------------------------------------------------------------------
 Recs == ndJsonDeserialize(IOEnv.OBS_FILE)          \* [id, g, m, x, a, intrep, out]
